@@ -153,9 +153,8 @@ func vfC10Prepare(c vfC10Case, root string) (dir, out, casePath string) {
 	if err != nil {
 		panic(err)
 	}
-	out = filepath.Join(dir, "out")
-	os.Mkdir(out, 0755)
 	sc := c.Sock
+	out = sc.makeOut(dir)
 	conf := vfConf{DeviceName: "c10", Min: sc.Min, Max: sc.Max, Prev: sc.Prev, Cont: sc.Cont, MinDiskMB: 1, BucketS: 600, RefillS: 600,
 		WinStart: "12:00", WinEnd: "12:00", Motion: vfSimpleMotion(sc.Trigger, sc.Edge)}
 	if err := vfWriteConfig(dir, out, conf); err != nil {
@@ -520,6 +519,17 @@ func vfGenC10(t *rapid.T) vfC10Case {
 			sc.Items[5] = vfItem{K: vfItBad}
 		}
 	}
+	// few streams are run per check: make the unusual output directories (names containing the recorder's own
+	// extensions or glob metacharacters, symbolic links) as likely as the plain one
+	if rapid.Bool().Draw(t, "hostile_out") {
+		sc.OutName = rapid.SampledFrom(vfOutNames[3:]).Draw(t, "outname10")
+	}
+	if rapid.IntRange(0, 2).Draw(t, "linked_out") == 0 {
+		sc.OutLink = rapid.IntRange(1, 2).Draw(t, "outlink10")
+		if sc.OutLink == 2 {
+			sc.Cont = true
+		}
+	}
 	c := vfC10Case{Sock: sc}
 	if rapid.IntRange(0, 2).Draw(t, "testrec") == 0 {
 		c.TestAt = []int{rapid.IntRange(0, len(c.Sock.Items)/2).Draw(t, "testat")}
@@ -529,6 +539,6 @@ func vfGenC10(t *rapid.T) vfC10Case {
 
 func TestVF_C10(t *testing.T) {
 	kit.Drive(t, "C10", "TestVF_C10",
-		"generated: small Lepton/Boson streams (8x6..14x10, up to ~90 frames) with 1-3 motion recordings, optionally bad frames, 'clear' markers, a test recording and the continuous recorder; each stream is first run to completion in a child process under strace to number the file-system system calls (openat, write, close, lseek, rename*, unlink*, mkdir*) of the thread that runs handleConn; then the child is re-run and killed with SIGKILL on entering the k-th such call, for every k (thorough) or a stratified sample of ~40 points (quick: all points within 6 calls of every open/rename/unlink of a recording plus an even sample of the rest). Oracle on the surviving directory: every *.cptv decodes from header to exactly NumFrames frames and equals, frame for frame, the corresponding complete recording of the uncrashed run (a kill at a call boundary leaves exactly what a concurrent observer could see at that instant); after the real deleteTempFiles the output directory holds nothing but those complete recordings. Non-trivial: a stream with at least one crash point at which a recording was in progress (temporary artefacts present). Evaluations count the individual kills (plus one per stream); non-trivial ones are the kills at which a recording was in progress, distinct by (stream, crash point).",
+		"generated: small Lepton/Boson streams (8x6..14x10, up to ~90 frames) with 1-3 motion recordings, optionally bad frames, 'clear' markers, a test recording and the continuous recorder, into output directories that are plain, named with the recorder's own extensions or glob metacharacters ('rec.temp', 'usb[1]/cptv', 'a*b?c', ...) or symbolic links (the directory itself / its constant-recordings sub-directory); each stream is first run to completion in a child process under strace to number the file-system system calls (openat, write, close, lseek, rename*, unlink*, mkdir*) of the thread that runs handleConn; then the child is re-run and killed with SIGKILL on entering the k-th such call, for every k (thorough) or a stratified sample of ~40 points (quick: all points within 6 calls of every open/rename/unlink of a recording plus an even sample of the rest). Oracle on the surviving directory: every *.cptv decodes from header to exactly NumFrames frames and equals, frame for frame, the corresponding complete recording of the uncrashed run (a kill at a call boundary leaves exactly what a concurrent observer could see at that instant); after the real deleteTempFiles the output directory holds nothing but those complete recordings. Non-trivial: a stream with at least one crash point at which a recording was in progress (temporary artefacts present). Evaluations count the individual kills (plus one per stream); non-trivial ones are the kills at which a recording was in progress, distinct by (stream, crash point).",
 		vfGenC10, vfRunC10)
 }
